@@ -68,6 +68,7 @@ class HEvent:
         self.h = h
         self.label = label
         self._flag = False
+        self.wait_seq = 0
 
     def is_set(self):
         return self._flag
@@ -80,6 +81,7 @@ class HEvent:
 
     def wait(self, timeout=None):
         h = self.h
+        self.wait_seq += 1
         h.waits.append((self.label, timeout))
         h.log.append(('wait', self.label, timeout))
         for _ in range(10000):
